@@ -137,6 +137,29 @@ impl Prop for C03 {
                 }
             }
             let family = u.extra["family"].as_str().unwrap_or("").to_string();
+            // a non-initial starting state: the program as rustfmt itself lays it out (every element on a line
+            // of its own), for the list-like families in the quick tier and for every family in the thorough tier
+            if u.key.ends_with("/L0") && (thorough || family == "struct" || family == "enum") {
+                let o = fmt::format(&u.text, &Cfg::new(u.cfg.style_edition), 60);
+                if o.ok() && o.text != u.text {
+                    let mut f = u.clone();
+                    f.key = format!("{}/LFMT", u.key.trim_end_matches("/L0"));
+                    f.text = o.text;
+                    for cfg in comment_cfgs(tier, u.cfg.style_edition) {
+                        let align = cfg.get("struct_field_align_threshold").is_some();
+                        if !thorough && !align {
+                            continue;
+                        }
+                        if align && !(family == "struct" || family == "enum") {
+                            continue;
+                        }
+                        let mut v = f.clone();
+                        v.cfg = cfg;
+                        units.push(v);
+                    }
+                    units.push(f);
+                }
+            }
             for cfg in comment_cfgs(tier, u.cfg.style_edition) {
                 // the alignment options concern field / variant lists only
                 if cfg.get("struct_field_align_threshold").is_some() && !(family == "struct" || family == "enum") {
